@@ -255,6 +255,15 @@ def r15_2(cx):
                 cx.fail(inst, fn, fn.loc(b), 'branch on the counter whose edges do not imply counter <= len/k (k >= 2) or counter == 0: %s' % show(e))
 
 
+def _len_minus_counter(m, n):
+    """len - counter in any spelling: the invariant these rules establish together (counter <= len/2) makes the
+    saturating, wrapping and plain subtraction the same number"""
+    n = n.strip()
+    if n.kind == 'call' and n.op.rsplit('::', 1)[-1] in ('saturating_sub', 'wrapping_sub') and len(n.args) == 2:
+        return m.is_len(n.args[0]) and m.is_counter(n.args[1])
+    return n.kind == 'binop' and n.op == 'Sub' and m.is_len(n.a) and m.is_counter(n.b)
+
+
 def r15_3(cx):
     """a reset of the counter is preceded by copy_within(counter.., 0) and truncate(len - counter), or truncate(0)"""
     m = Model(cx)
@@ -271,8 +280,7 @@ def r15_3(cx):
             if n.is_const_int(0):
                 cx.ok('reset', fn, fn.loc(zpos.bb, zpos.idx), 'truncate(0) then counter := 0')
                 continue
-            ok_len = (is_call(n, 'saturating_sub') or (n.kind == 'binop' and n.op == 'Sub')) and \
-                m.is_len((n.args[0] if n.kind == 'call' else n.a)) and m.is_counter(n.args[1] if n.kind == 'call' else n.b)
+            ok_len = _len_minus_counter(m, n)
             cw = [cs for cs in fn.calls('copy_within') if fn.pos_dominates(cs.pos, t.pos)]
             ok_cw = False
             for cs in cw:
@@ -335,9 +343,7 @@ def r15_5(cx):
                 cx.check(ok, inst, fn, fn.loc(pos.bb, pos.idx), 'counter += 1 only where front() returned Some',
                          fail_detail='counter += 1 is not dominated by a non-emptiness test')
             else:
-                ok = is_call(inc, 'Ord::min') and any(
-                    is_call(a, 'saturating_sub') and m.is_len(a.strip().args[0]) and m.is_counter(a.strip().args[1])
-                    for a in inc.args)
+                ok = is_call(inc, 'Ord::min') and any(_len_minus_counter(m, a.strip()) for a in inc.args)
                 cx.check(ok, inst, fn, fn.loc(pos.bb, pos.idx), 'counter += min(len.saturating_sub(counter), count)',
                          fail_detail='increment %s is not clamped to len - counter' % show(inc))
 
